@@ -104,6 +104,25 @@ fn mutate_text(src: &mut Src, seed: &str, other: &str) -> String {
             s.replace_range(at..at + from.len(), to);
         }
     }
+    // lexeme-level: insert one or two characters of the grammars' alphabets, half of the time right
+    // in front of a digit / sign / quote (number, byte-string and string literals are where the
+    // hand-written conversions behind the grammar live)
+    if src.chance(1, 2) {
+        const ALPHABET: &[u8] = b"+-_.#\"'()[]{}<>,:;=!?@\\|&*/% 0123456789abcxXeEo";
+        let anchors: Vec<usize> = s.char_indices().filter(|(_, c)| c.is_ascii_digit() || matches!(c, '-' | '+' | '"' | '#')).map(|(i, _)| i).collect();
+        let at = if !anchors.is_empty() && src.bool() {
+            *src.pick(&anchors)
+        } else {
+            let idx: Vec<usize> = s.char_indices().map(|(i, _)| i).chain(std::iter::once(s.len())).collect();
+            *src.pick(&idx)
+        };
+        let n = 1 + src.below(2);
+        let ins: String = (0..n).map(|_| *src.pick(ALPHABET) as char).collect();
+        s.insert_str(at, &ins);
+        if src.chance(2, 3) {
+            return s;
+        }
+    }
     let bytes = mutate(src, s.as_bytes(), other.as_bytes());
     String::from_utf8_lossy(&bytes).to_string()
 }
